@@ -4,6 +4,9 @@ Model.vos Model.vok Model.required_vos: Model.v ../Common/Base.vos
 Proofs.vo Proofs.glob Proofs.v.beautified Proofs.required_vo: Proofs.v ../Common/Base.vo Model.vo
 Proofs.vio: Proofs.v ../Common/Base.vio Model.vio
 Proofs.vos Proofs.vok Proofs.required_vos: Proofs.v ../Common/Base.vos Model.vos
-Properties.vo Properties.glob Properties.v.beautified Properties.required_vo: Properties.v ../Common/Base.vo Model.vo Proofs.vo
-Properties.vio: Properties.v ../Common/Base.vio Model.vio Proofs.vio
-Properties.vos Properties.vok Properties.required_vos: Properties.v ../Common/Base.vos Model.vos Proofs.vos
+Tokens.vo Tokens.glob Tokens.v.beautified Tokens.required_vo: Tokens.v ../Common/Base.vo Model.vo Proofs.vo
+Tokens.vio: Tokens.v ../Common/Base.vio Model.vio Proofs.vio
+Tokens.vos Tokens.vok Tokens.required_vos: Tokens.v ../Common/Base.vos Model.vos Proofs.vos
+Properties.vo Properties.glob Properties.v.beautified Properties.required_vo: Properties.v ../Common/Base.vo Model.vo Proofs.vo Tokens.vo
+Properties.vio: Properties.v ../Common/Base.vio Model.vio Proofs.vio Tokens.vio
+Properties.vos Properties.vok Properties.required_vos: Properties.v ../Common/Base.vos Model.vos Proofs.vos Tokens.vos
